@@ -169,7 +169,12 @@ func (a *allocation) createPermission(perm *permission, addr net.Addr) error {
 	if perm.state() == permStateIdle {
 		// Punch a hole! (this would block a bit..)
 		if err := a.CreatePermissions(addr); err != nil {
-			a.permMap.delete(addr)
+			// Keep the entry while the caller retries after a stale nonce:
+			// deleting it here would leave the permission, once granted, out
+			// of the map and therefore out of the periodic refresh.
+			if !errors.Is(err, errTryAgain) {
+				a.permMap.delete(addr)
+			}
 
 			return err
 		}
